@@ -24,6 +24,7 @@ class Opts(object):
         self.w_204 = 1
         self.w_rep = 2
         self.plain_bitmap_list = True   # 031031 written N times without a replication
+        self.bitmap_in_rep = True       # a self-contained block (elements, 22X000 + bitmap + values, 235000) as a replication body
         self.__dict__.update(kw)
 
 
@@ -143,6 +144,10 @@ def gen_item(ch, pool, ctx, opts, depth, pos):
     if (opts.bitmaps and opts.operators and not ctx.in_204 and not ctx.in_numop and not ctx.in_rep
             and ctx.min_plain >= 1 and ctx.budget >= 6 and not ctx.in_208):
         choices.append((opts.w_bitmap, 'bitmap'))
+    if (opts.bitmaps and opts.operators and opts.bitmap_in_rep and depth == 0 and not ctx.in_rep and not ctx.in_204
+            and not ctx.in_numop and not ctx.in_208 and ctx.epoch_len is None and not ctx.stored_bitmap
+            and ctx.budget >= 10 and pool.class33):
+        choices.append((max(1, opts.w_bitmap // 2), 'rep_bitmap'))
     k = ch.weighted(choices)
     return _GEN[k](ch, pool, ctx, opts, depth)
 
@@ -452,7 +457,36 @@ def g_bitmap(ch, pool, ctx, opts, depth):
     return out
 
 
-_GEN = {'elem': g_elem, 'seq': g_seq, 'fixed': g_fixed, 'delayed': g_delayed, '201': g_201, '202': g_202,
+def g_rep_bitmap(ch, pool, ctx, opts, depth):
+    """A replication whose body opens and closes a whole back-reference epoch: k elements, an
+    operator block over n <= k of them, 235000."""
+    k = ch.int(1, 3)
+    body = [_pick_num(ch, pool, ctx, 1) for _ in range(k)]
+    n = ch.int(1, k)
+    op = ch.weighted([(3, 222), (2, 224), (2, 223), (1, 232)])
+    body.append(op * 1000)
+    if ch.bool(1, 4):
+        body.append(236000)
+    body.extend(_bitmap_def(ch, ctx, n, None, 0, ch.weighted([(2, 'fixed'), (1, 'delayed'), (1, 'list')])))
+    if op == 222:
+        body += [101000, 31001, ch.choice(pool.class33)]
+    else:
+        if op == 224:
+            body.append(8023)
+        body += [101000, 31001, op * 1000 + 255]
+    body.append(235000)
+    _reserve(ctx, len(body) + 2)
+    ctx.features.add('bitmap')
+    ctx.features.add('bitmap_in_rep')
+    if ch.bool():
+        head = [100000 + len(body) * 1000 + ch.int(1, 3)]
+    else:
+        head = [100000 + len(body) * 1000, ch.weighted([(3, 31001), (1, 31000)])]
+        ctx.min_plain += 1
+    return head + body
+
+
+_GEN = {'rep_bitmap': g_rep_bitmap, 'elem': g_elem, 'seq': g_seq, 'fixed': g_fixed, 'delayed': g_delayed, '201': g_201, '202': g_202,
         '207': g_207, '208': g_208, '204': g_204, '205': g_205, '206': g_206, '203': g_203, '221': g_221,
         'bitmap': g_bitmap}
 
